@@ -2,71 +2,99 @@
 (* C03 — every magic word / parser function called with any number and shape of arguments, and
    junk over the template alphabet, expands to a string.
 
-   Two finite input spaces, enumerated by TLC (P-ENUM); the outcome the property demands is the
-   same for every element — "str", no exception, size and work in proportion to the argument
-   text — so the specification's job here is the exhaustive, explicit statement of the space:
+   Finite input spaces, enumerated by TLC (P-ENUM); the outcome the property demands is the same
+   for every element — "str", no exception, size and work in proportion to the argument text —
+   so the specification's job here is the exhaustive, explicit statement of the space:
 
    Mode "calls":  Name x Arity(0..MaxArity) x Shape^arity.   Name is 1..NNames, an index into the
        table the harness GENERATES from the running code (every attribute MagicResolver
        resolves, every magic_nodes.registry key, every magic word name and alias of the site's
-       bundled siteinfo).  {{NAME}} for arity 0, {{NAME:s1|s2|s3}} otherwise.  The 2-ary and
-       3-ary levels (100 / 1000 shape tuples per name) are thinned by deterministic strides in
-       the quick tier.
-       Each call also names its *small twin*: the same call with every number-like or oversize
-       shape replaced by the small number; the harness bounds output, step count and allocation
-       of a call by those of its twin (ExpectedClass, Twin).
+       bundled siteinfo).  {{NAME}} for arity 0, {{NAME:s1|s2|s3}} otherwise.
+       Shapes come in two families:
+         Base  — empty, word, small / huge / negative / decimal / exponent number, path, nested
+                 call, oversize text;
+         Edge  — arithmetic that reaches the edges of the number representation, for every
+                 function that evaluates its argument (#expr, #ifexpr, #ifeq, padleft width,
+                 formatnum, #time ...): silent overflow to +inf / -inf, inf-inf and 0*inf (NaN),
+                 an integer literal beyond the float range (310 digits), negative zero, a
+                 subnormal, division / mod by zero, rounding to a huge negative / positive number
+                 of digits, ^ with a huge exponent, deeply nested parentheses.
+       A tuple of arity >= 2 contains at most one Edge shape.  The 2-ary and 3-ary levels are
+       thinned by deterministic strides in the quick tier.
+       Each call also names its *small twin*: the same call with every inflated shape replaced by
+       the small number; the harness bounds output, step count and allocation of a call by those
+       of its twin (Twin).
+
+   Mode "time":   #time format code (index into the table of codes the running code knows, alone
+       and behind the "xr" roman-numeral prefix) x date shape.
 
    Mode "junk":   all sequences of 1..MaxLex lexemes over the template alphabet (braces, pipes,
        "=", ":", "#", the noinclude family, nowiki, link brackets, a word, a template name, a
        parser-function prefix), used both as the page itself and as the body of a template the
-       page calls.                                                                          *)
+       page calls; sequences of up to MaxDeepLex lexemes additionally repeated Deep times
+       (unbounded nesting depth written by a page: "{{a|{{a|{{a|...").                        *)
 EXTENDS Naturals, Sequences, FiniteSets, TLC, Json
 
-CONSTANTS Mode,        \* "calls" | "junk"
+CONSTANTS Mode,        \* "calls" | "time" | "junk"
           NNames,      \* size of the generated name table
           MaxArity,    \* 0..3
           Stride2,     \* keep one in Stride2 of the 2-ary shape pairs (1 = all)
           Stride,      \* keep one in Stride of the 3-ary shape triples (1 = all)
           Phase,       \* which residue is kept (derived from the seed)
+          NFormats,    \* time: size of the generated table of format codes
           MaxLex,      \* junk: lexemes per sequence
+          MaxDeepLex,  \* junk: lexemes per sequence that is also repeated Deep times
           Emit
 
-VARIABLES name, shapes, lex, emitted
-vars == <<name, shapes, lex, emitted>>
+VARIABLES name, shapes, lex, rep, emitted
+vars == <<name, shapes, lex, rep, emitted>>
 
-Shapes == <<"empty", "word", "small", "huge", "negative", "decimal", "exponent", "path", "nested", "oversize">>
+BaseShapes == <<"empty", "word", "small", "huge", "negative", "decimal", "exponent", "path", "nested", "oversize">>
+EdgeShapes == <<"posinf", "neginf", "nan", "zerotimesinf", "bigint", "negzero", "subnormal", "divzero", "modzero",
+                "roundneg", "roundpos", "powhuge", "deepparen">>
+Shapes == BaseShapes \o EdgeShapes
 NShapes == Len(Shapes)
+ShapeSet == {Shapes[i] : i \in 1..NShapes}
+EdgeSet  == {EdgeShapes[i] : i \in 1..Len(EdgeShapes)}
 \* shapes whose cost must not exceed that of the small number by more than a constant factor
-Inflated == {"huge", "exponent", "oversize"}
+Inflated == {"huge", "exponent", "oversize"} \cup EdgeSet
 ShapeIdx(s) == CHOOSE i \in 1..NShapes : Shapes[i] = s
 Twin(ss) == [i \in 1..Len(ss) |-> IF ss[i] \in Inflated THEN "small" ELSE ss[i]]
 HasTwin(ss) == \E i \in 1..Len(ss) : ss[i] \in Inflated
+EdgeCount(ss) == Cardinality({i \in 1..Len(ss) : ss[i] \in EdgeSet})
+
+DateShapes == <<"none", "iso", "far", "year1", "digits4", "word", "relative", "epochbig", "datetime", "negative">>
 
 Lexemes == <<"{{", "}}", "{{{", "}}}", "|", "=", ":", "#", "<noinclude>", "</noinclude>", "<includeonly>", "</includeonly>",
              "<onlyinclude>", "</onlyinclude>", "<nowiki>", "</nowiki>", "[[", "]]", "a", "T", "#if:", "#switch:", "lc:">>
 NLex == Len(Lexemes)
+Deep == 3000
 
 Weight(ss) == IF Len(ss) < 2 THEN 0
               ELSE ShapeIdx(ss[1]) * 7 + ShapeIdx(ss[2]) * 13 + (IF Len(ss) = 3 THEN ShapeIdx(ss[3]) * 29 ELSE 0)
 StrideOf(ss) == IF Len(ss) = 2 THEN Stride2 ELSE IF Len(ss) = 3 THEN Stride ELSE 1
 Kept(n, ss) == StrideOf(ss) = 1 \/ (Weight(ss) + n) % StrideOf(ss) = Phase % StrideOf(ss)
 
-ShapeSeqs == UNION {[1..k -> {Shapes[i] : i \in 1..NShapes}] : k \in 0..MaxArity}
+ShapeSeqs == {ss \in UNION {[1..k -> ShapeSet] : k \in 0..MaxArity} : Len(ss) < 2 \/ EdgeCount(ss) <= 1}
 LexSeqs   == UNION {[1..k -> {Lexemes[i] : i \in 1..NLex}] : k \in 1..MaxLex}
 
 Init == /\ emitted = FALSE
-        /\ IF Mode = "calls"
-           THEN /\ name \in 1..NNames /\ shapes \in ShapeSeqs /\ Kept(name, shapes) /\ lex = <<>>
-           ELSE /\ name = 0 /\ shapes = <<>> /\ lex \in LexSeqs
+        /\ CASE Mode = "calls" -> /\ name \in 1..NNames /\ shapes \in ShapeSeqs /\ Kept(name, shapes)
+                                  /\ lex = <<>> /\ rep = 1
+             [] Mode = "time"  -> /\ name \in 1..NFormats
+                                  /\ shapes \in {<<p, DateShapes[d]>> : p \in {"plain", "xr"}, d \in 1..Len(DateShapes)}
+                                  /\ lex = <<>> /\ rep = 1
+             [] OTHER          -> /\ name = 0 /\ shapes = <<>> /\ lex \in LexSeqs
+                                  /\ rep \in (IF Len(lex) <= MaxDeepLex THEN {1, Deep} ELSE {1})
 
 \* one step: the case is handed to the implementation
-Hand == /\ ~emitted /\ emitted' = TRUE /\ UNCHANGED <<name, shapes, lex>>
+Hand == /\ ~emitted /\ emitted' = TRUE /\ UNCHANGED <<name, shapes, lex, rep>>
 Next == Hand
 Spec == Init /\ [][Next]_vars /\ WF_vars(Next)
 
 -----------------------------------------------------------------------------
-TypeOK == /\ name \in 0..NNames
-          /\ Len(shapes) <= MaxArity /\ Len(lex) <= MaxLex
+TypeOK == /\ name \in 0..(IF Mode = "time" THEN NFormats ELSE NNames)
+          /\ Len(shapes) <= (IF Mode = "time" THEN 2 ELSE MaxArity) /\ Len(lex) <= MaxLex
 \* the twin is a case of the same space, has no inflated shape, and is its own twin
 TwinLaw == Mode = "calls" =>
              /\ Twin(shapes) \in ShapeSeqs
@@ -76,7 +104,7 @@ AllHanded == <>emitted
 
 EmitCase ==
   (Emit /\ emitted) =>
-    IF Mode = "calls"
-    THEN PrintT("@@" \o ToJson([n |-> name, s |-> shapes, twin |-> IF HasTwin(shapes) THEN Twin(shapes) ELSE <<>>, inflated |-> HasTwin(shapes)]))
-    ELSE PrintT("@@" \o ToJson([lex |-> lex]))
+    CASE Mode = "calls" -> PrintT("@@" \o ToJson([n |-> name, s |-> shapes, twin |-> IF HasTwin(shapes) THEN Twin(shapes) ELSE <<>>]))
+      [] Mode = "time"  -> PrintT("@@" \o ToJson([f |-> name, pre |-> shapes[1], date |-> shapes[2]]))
+      [] OTHER          -> PrintT("@@" \o ToJson([lex |-> lex, rep |-> rep]))
 =============================================================================
